@@ -208,6 +208,16 @@ def d2_4(ctx):
             facts = {"slice": src(ge.elt), "range": src(it)}
             good = ctx.folder.eval(it.args[0], fn.module) == 0 and atom_name(it.args[1]) == f"len({x})" and sl.lower is not None and atom_name(sl.lower) == i and up is not None and up.terms == {i: 1, seg_size: 1} and up.const == 0 and x == "request.value" and not gen.ifs
     ctx.check(good, ckey(fn, "tiling"), gens[0] if gens else f, "segments = value[i:i+s] for i in range(0, len(value), s)", "the value is not tiled into contiguous non-overlapping segments from offset 0", **facts)
+    from .common import fragment_size_redefinitions
+
+    for i_, (verdict, node, msg) in enumerate(fragment_size_redefinitions(ctx, fn)):
+        k_ = ckey(fn, f"segment-size-redefined{i_}")
+        if verdict == "ok":
+            ctx.ok(k_, node, msg)
+        elif verdict == "violation":
+            ctx.violation(k_, node, msg)
+        else:
+            ctx.undecided(k_, node, msg)
     loops = [n for n in walk(f) if isinstance(n, ast.For)]
     good = False
     facts = {}
